@@ -3,8 +3,9 @@
    The floating-point conversions (conv_d / conv_f / print_d / print_f) are Section variables of the models and therefore
    ordinary function arguments of the extracted code: ocaml/asciidriver.ml passes strtod / "%g" based implementations. *)
 From Coq Require Import ExtrOcamlBasic.
-From OVM Require Import IO.AsciiStream.
+From OVM Require Import IO.AsciiStream IO.AsciiReaderModel IO.AsciiWriterModel Kernel.Ops.
 Extraction Language OCaml.
 Set Extraction Optimize.
 Extraction "ascii_model.ml"
-  of_bytes get_num get_char get_word getline read_n get_float float_scan print_Z.
+  of_bytes get_num get_char get_word getline read_n get_float float_scan print_Z
+  read_ascii write_ascii type_name type_of_name entity_name bs empty_mesh needs_gc.
